@@ -58,6 +58,10 @@ type StdOpts struct {
 
 func (w *World) stdOpts() *StdOpts { return w.Vars["std"].(*StdOpts) }
 
+// ExploreKeep, if set, selects the violation keys a check reports: a scenario shared between properties raises
+// keys of several properties, each check reports its own.
+var ExploreKeep func(key string) bool
+
 // StdActions is the default policy: loop deliveries oldest-first, then honest peer answers, then parked
 // tracker announces, then parked storage operations, then the next script item. Everything after the
 // first entry is an alternative (deviation).
@@ -301,6 +305,10 @@ func Explore(testName string, rep *core.Report, runs []Run) {
 							m["select"] = "last"
 						}
 						v.Desc += "\n  (runtime select order: last ready case wins; replay with VERIF_SELECT=last)"
+					}
+					if ExploreKeep != nil && !ExploreKeep(v.Key) {
+						rep.Add("violations_of_other_properties_seen_and_left_to_their_checks", 1)
+						continue
 					}
 					rep.Violate(v.Key, v.Desc, v.Replay)
 				}
